@@ -36,7 +36,7 @@ META = dict(
               '__init__ chain (def-use of each argument into the attribute '
               'the saver reads), co_varnames/attribute-name collision, '
               '3-valued evaluation of the saver filter, yaml tag writer/reader '
-              'table agreement, Model map-key vs constructor-signature inclusion',
+              'table agreement, Model map-key vs constructor-signature inclusion; producer / writer / reader agreement on the number of stage results of a tempered result',
     level_text='Static, exhaustive over every serialisable class and every '
                'constructor argument in the source tree: decides the structural '
                'clauses R1-R5 (a lost or constant-stored argument, a local that '
@@ -151,6 +151,79 @@ def run(check, prog):
     from . import c14
     from hpstatic.poly import Canon
     c14.r8_uniform_guess(check, prog, Canon())
+    tempered_stage_count(check, prog)
+
+
+def tempered_stage_count(check, prog):
+    """R7: a tempered sampling result is read back with as many stage results as
+    were written.  `TemperedStrategy.sample` builds one result per stage strategy
+    and `_save` writes one group per stage result, numbered from 0; `_load` reads
+    the groups 0 .. count-1, and its count is the number of stage strategies."""
+    from .common import list_builder
+    RES = 'holopy.inference.result.TemperedSamplingResult'
+    STR = 'holopy.inference.emcee.TemperedStrategy'
+    try:
+        fd_l = prog.func(RES + '._load')
+        fd_s = prog.func(STR + '.sample')
+        fd_w = prog.func(RES + '._save')
+    except (KeyError, AnalysisError):
+        return
+    loc = prog.loc(RES + '._load', fd_l)
+
+    def built(q, depth):
+        it = Interp(prog, max_depth=depth, inline_new=False)
+        res = it.analyze(q)
+        out = []
+        for x in subterms(res.ret):
+            if x[0] == 'new' and x[1] == RES:
+                out.append(dict(x[3]).get('stage_results'))
+        return it, [t for t in out if t is not None]
+    it_s, made = built(STR + '.sample', 0)
+    per_stage = False
+    for t in made:
+        lb = list_builder(t)
+        if lb is None:
+            continue
+        itr = lb[1]
+        if itr[0] == 'call' and itr[1] in ('enumerate', 'list', 'iter') and \
+                len(itr[2]) == 1:
+            itr = itr[2][0]
+        if itr == ('attr', sym('self'), 'stage_strategies'):
+            per_stage = True
+    check.need('stage results built by TemperedStrategy.sample', int(per_stage), 1,
+               'R7-stage-count', 'TemperedStrategy.sample',
+               'one stage result per stage strategy', prog.loc(STR + '.sample', fd_s))
+    it_w = Interp(prog, max_depth=0)
+    it_w.analyze(RES + '._save')
+    groups = [c for c in it_w.calls if c['name'] == '._save' and
+              dict(c['kwargs']).get('group') is not None]
+    all_written = any(
+        any(x[0] == 'call' and x[1] == 'enumerate' and x[2] and
+            x[2][0] == ('attr', sym('self'), 'stage_results')
+            for x in subterms(dict(c['kwargs'])['group'])) for c in groups)
+    check.need('group per stage result in TemperedSamplingResult._save',
+               int(all_written), 1, 'R7-stage-count', 'TemperedSamplingResult._save',
+               'every stage result is written to its own numbered group',
+               prog.loc(RES + '._save', fd_w))
+    it_l, read = built(RES + '._load', 1)
+    ok = False
+    detail = 'no list of stage results built in _load'
+    for t in read:
+        lb = list_builder(t)
+        if lb is None:
+            continue
+        itr = lb[1]
+        detail = 'groups read: %s' % show(itr)[:120]
+        if itr[0] == 'call' and itr[1] == 'range' and len(itr[2]) == 1 and not itr[3]:
+            n = itr[2][0]
+            ok = n[0] == 'call' and n[1] == 'len' and len(n[2]) == 1 and \
+                n[2][0][0] == 'attr' and n[2][0][2] == 'stage_strategies'
+    check.require(ok and per_stage and all_written, 'R7-stage-count',
+                  'TemperedSamplingResult._load',
+                  'the groups 0 .. len(strategy.stage_strategies) - 1 are read: as many '
+                  'as sample() made and _save wrote', loc,
+                  fail_detail=detail + ': a saved result comes back with another '
+                  'number of stage results than it was written with')
 
 
 # ----------------------------------------------------------------------
